@@ -593,8 +593,13 @@ void ExpressionBuilder::expr_dot(const char* id)
             expr = expression_t::create_dot(expr, *i, position, type_t::create_primitive(Constants::BOOL));
         } else {
             type = type.get_sub(*i).rename(process->templ->uid.get_name() + "::", name.get_name() + "::");
-            for (const auto& [s, e] : process->mapping)
-                type = type.subst(s, e);
+            // An argument may mention a parameter of an intermediate (partial) instance, which is bound itself: substitute
+            // the template's parameters first and the forwarded ones after them. The parameters of an instance are its own
+            // followed by those of what it instantiates, so this is their reverse order (the map's order is arbitrary).
+            for (uint32_t k = process->parameters.get_size(); k-- > 0;) {
+                if (auto arg = process->mapping.find(process->parameters[k]); arg != process->mapping.end())
+                    type = type.subst(arg->first, arg->second);
+            }
             expr = expression_t::create_dot(expr, *i, position, type);
         }
     } else if (type.is(PROCESS_VAR)) {
